@@ -559,10 +559,15 @@ static int enumerate(int shard, int nshards, const char *tier) {
     std::vector<std::string> shapes = shp.roots(N);
     Stats &st = stats();
     uint64_t states = 0, transitions = 0;
-    for (size_t ti = 0; ti < shapes.size(); ti++) {
-        if ((int)(ti % (size_t)nshards) != shard) continue;
+    // second pass with the prefix-chain naming scheme over the trees that contain an object with >= 2 fields
+    const size_t nsh = shapes.size();
+    for (size_t ti2 = 0; ti2 < 2 * nsh; ti2++) {
+        size_t ti = ti2 % nsh;
+        int scheme = ti2 >= nsh ? 1 : 0;
+        if ((int)(ti2 % (size_t)nshards) != shard) continue;
+        if (scheme == 1 && shapes[ti].find('{') == std::string::npos) continue;
         Value tree;
-        parse_shape(shapes[ti], 0, tree);
+        parse_shape(shapes[ti], 0, tree, scheme);
         Bytes doc = ref::encode(tree);
         bool arr = tree.k == K_ARR;
         unsigned depth = need_depth(tree, arr);
